@@ -515,4 +515,150 @@ theorem eachRemove_keeps (w : Width) (r : S) (rm : Nat → Bool) {y : Nat} (hy :
   · exact loop32_keeps rm hy _ _ _ h
   · exact loop64_keeps rm hy _ _ _ h
 
+/-! ### commutative.go -/
+
+theorem commContains_iff {dc : List S} {v : Nat} : commContains dc v = true ↔ ∃ d ∈ dc, v ∈ d := by
+  simp only [commContains, List.any_eq_true, Bool.and_eq_true, decide_eq_true_eq, has_iff]
+  constructor
+  · rintro ⟨d, hd, _, hv⟩; exact ⟨d, hd, hv⟩
+  · rintro ⟨d, hd, hv⟩; exact ⟨d, hd, List.length_pos_of_mem hv, hv⟩
+
+theorem commDuplexesContains_iff {ors ands : List (List S)} {v : Nat} :
+    commDuplexesContains ors ands v = true ↔ (∃ dc ∈ ors, ∃ d ∈ dc, v ∈ d) ∧ (∀ dc ∈ ands, ∃ d ∈ dc, v ∈ d) := by
+  simp only [commDuplexesContains, Bool.and_eq_true, List.any_eq_true, List.all_eq_true, commContains_iff]
+
+/-! ### CheckedAdd on spec traces -/
+namespace Spec
+
+/-- operations that never remove an element -/
+def Grows : Op → Prop
+  | .add _ => True
+  | .checkedAdd _ => True
+  | .contains _ => True
+  | .card => True
+  | .slice => True
+  | .each _ => True
+  | .clone => True
+  | .bin .or _ => True
+  | _ => False
+
+/-- `CheckedAdd` and read-only operations -/
+def CaddOrRead : Op → Prop
+  | .checkedAdd _ => True
+  | .contains _ => True
+  | .card => True
+  | .slice => True
+  | .each _ => True
+  | .clone => True
+  | _ => False
+
+theorem CaddOrRead.grows {op : Op} (h : CaddOrRead op) : Grows op := by
+  cases op <;> first | trivial | exact h.elim
+
+/-- a `CheckedAdd v` that answered `true` -/
+def isCaddTrue (v : Nat) : Op × Out → Bool
+  | (.checkedAdd u, .bool true) => u == v
+  | _ => false
+
+/-- every answer of the trace is the ideal one, the ideal set threaded through -/
+def validTrace : S → List (Op × Out) → Prop
+  | _, [] => True
+  | s, (op, r) :: t => r = answer s op ∧ validTrace (next s op) t
+
+theorem mem_next_of_grows {s : S} {op : Op} {v : Nat} (hg : Grows op) (hv : v ∈ s) : v ∈ next s op := by
+  cases op with
+  | add vs => exact mem_foldl_ins.2 (Or.inl hv)
+  | checkedAdd u => exact mem_ins.2 (Or.inr hv)
+  | bin b o =>
+    cases b with
+    | or => exact mem_union.2 (Or.inl hv)
+    | _ => exact hg.elim
+  | remove _ => exact hg.elim
+  | clear => exact hg.elim
+  | _ => exact hv
+
+theorem cadd_count_of_mem {v : Nat} : ∀ {s : S} {tr : List (Op × Out)}, v ∈ s → (∀ p ∈ tr, Grows p.1) →
+    validTrace s tr → (tr.filter (isCaddTrue v)).length = 0
+  | _, [], _, _, _ => rfl
+  | s, (op, r) :: t, hv, hg, hval => by
+    have ih := cadd_count_of_mem (mem_next_of_grows (hg (op, r) List.mem_cons_self) hv)
+      (fun p hp => hg p (List.mem_cons_of_mem _ hp)) hval.2
+    have hhead : isCaddTrue v (op, r) = false := by
+      cases op with
+      | checkedAdd u =>
+        by_cases e : u = v
+        · subst e
+          have hr : r = .bool (!has s u) := hval.1
+          rw [hr, has_iff.2 hv]; rfl
+        · cases r with
+          | bool b => cases b <;> simp [isCaddTrue, e]
+          | _ => rfl
+      | _ => rfl
+    rw [List.filter_cons, hhead]; simpa using ih
+
+/-- in a history of operations that never remove, `CheckedAdd v` answers `true` at most once -/
+theorem cadd_count_le_one {v : Nat} : ∀ {s : S} {tr : List (Op × Out)}, (∀ p ∈ tr, Grows p.1) →
+    validTrace s tr → (tr.filter (isCaddTrue v)).length ≤ 1
+  | _, [], _, _ => by simp
+  | s, (op, r) :: t, hg, hval => by
+    rw [List.filter_cons]
+    split
+    · rename_i htrue
+      -- this CheckedAdd v inserted v: nobody after it can see `true` again
+      have hop : op = .checkedAdd v := by
+        cases op with
+        | checkedAdd u =>
+          cases r with
+          | bool b => cases b <;> simp [isCaddTrue] at htrue; rw [htrue]
+          | _ => simp [isCaddTrue] at htrue
+        | _ => simp [isCaddTrue] at htrue
+      subst hop
+      have := cadd_count_of_mem (v := v) (s := next s (.checkedAdd v)) (tr := t) (mem_ins.2 (Or.inl rfl))
+        (fun p hp => hg p (List.mem_cons_of_mem _ hp)) hval.2
+      simp [this]
+    · exact cadd_count_le_one (fun p hp => hg p (List.mem_cons_of_mem _ hp)) hval.2
+
+/-- … and exactly once when `v` is new, only `CheckedAdd`s insert, and some `CheckedAdd v` is in the history -/
+theorem cadd_count_eq_one {v : Nat} : ∀ {s : S} {tr : List (Op × Out)}, v ∉ s → (∀ p ∈ tr, CaddOrRead p.1) →
+    validTrace s tr → (∃ r, (Op.checkedAdd v, r) ∈ tr) → (tr.filter (isCaddTrue v)).length = 1
+  | _, [], _, _, _, ⟨r, h⟩ => by simp at h
+  | s, (op, r) :: t, hv, hc, hval, ⟨r', hin⟩ => by
+    have hct := fun p hp => hc p (List.mem_cons_of_mem _ hp)
+    by_cases hop : op = .checkedAdd v
+    · subst hop
+      have hr : r = .bool (!has s v) := hval.1
+      have hfalse : has s v = false := has_false_iff.2 hv
+      have h0 := cadd_count_of_mem (v := v) (s := next s (.checkedAdd v)) (tr := t) (mem_ins.2 (Or.inl rfl))
+        (fun p hp => (hct p hp).grows) hval.2
+      rw [List.filter_cons, hr, hfalse]
+      simp [isCaddTrue, h0]
+    · have hhead : isCaddTrue v (op, r) = false := by
+        cases op with
+        | checkedAdd u =>
+          have : u ≠ v := fun e => hop (by rw [e])
+          cases r with
+          | bool b => cases b <;> simp [isCaddTrue, this]
+          | _ => rfl
+        | _ => rfl
+      have hv' : v ∉ next s op := by
+        cases op with
+        | checkedAdd u =>
+          have : u ≠ v := fun e => hop (by rw [e])
+          intro h; rcases mem_ins.1 h with e | h
+          · exact this e.symm
+          · exact hv h
+        | add _ => exact (hc _ List.mem_cons_self).elim
+        | remove _ => exact (hc _ List.mem_cons_self).elim
+        | clear => exact (hc _ List.mem_cons_self).elim
+        | bin _ _ => exact (hc _ List.mem_cons_self).elim
+        | _ => exact hv
+      have hin' : ∃ r, (Op.checkedAdd v, r) ∈ t := by
+        rcases List.mem_cons.1 hin with e | h
+        · injection e with e1 _; exact absurd e1.symm hop
+        · exact ⟨r', h⟩
+      rw [List.filter_cons, hhead]
+      simpa using cadd_count_eq_one hv' hct hval.2 hin'
+
+end Spec
+
 end Dawgs.C13
